@@ -19,7 +19,7 @@ run_stage(ctx, prefixes) with prefixes a list out of ["C14_", "C02_"]:
 Signature of a violation: "<first failing predicate> <class>", class built by TLC-computed facts of
 the failing step: the call, the deviation real - truth, and the context flags
   ghost-readd   the pod re-added by unevict still has its Consolidate ghost accounted
-  pipesharer    a nominated (Pipelined) fraction pod is on the node
+  pipegpu       a nominated (Pipelined) fraction or whole-GPU pod is on the node before or after the call
   plain         none of the above
 """
 import json
@@ -133,16 +133,17 @@ def model_pass(ctx, name, prefixes):
 # ------------------------------------------------------------------------------------------------
 # 3. trace validation: triage pass, then confirmation per signature
 # ------------------------------------------------------------------------------------------------
-def classify(v, failing):
-    d = v["didle"], v["dused"], v["drel"]
-    dev = "idle%+d/%+d/%+d used%+d/%+d/%+d rel%+d/%+d/%+d" % tuple(x[k] for x in d for k in ("cpu", "gpu", "pods"))
+def classify(v, name):
+    """signature class of a failing step from facts computed by TLC (deviation = real - truth)."""
+    di, du, dr = v["didle"], v["dused"], v["drel"]
+    base = any(d[k] != 0 for d in (di, du, dr) for k in ("cpu", "pods")) or du["gpu"] != 0
     if v["ghostb"] and v["op"] == "Unevict" and v["call"] == "Add":
         ctxflag = "ghost-readd"
-    elif v["pipesharer"]:
-        ctxflag = "pipesharer"
+    elif v["pipegpu"]:
+        ctxflag = "pipegpu"
     else:
         ctxflag = "plain"
-    return "%s %s %s/%s %s" % (failing[0], ctxflag, v["op"], v["call"], dev)
+    return "%s %s %s/%s dgpu=idle%+d,rel%+d dbase=%s" % (name, ctxflag, v["op"], v["call"], di["gpu"], dr["gpu"], "X" if base else "0")
 
 
 def triage(ctx, trace_path, tag):
@@ -159,54 +160,76 @@ def triage(ctx, trace_path, tag):
     return r, verdicts
 
 
+def is_known(ctx, sig):
+    return any(f.get("status") == "known" and f["property"] == ctx.prop and vlib.sig_match(f["signature"], sig) for f in ctx.findings)
+
+
 def validate(ctx, trace_path, tag, prefixes):
     events = vlib.read_ndjson(trace_path)
     spans = vlib.scenario_index(events)
+    span_of = {s: (s, e) for s, e in spans}
     r, verdicts = triage(ctx, trace_path, tag)
-    # exactly one TLC state per Step line + one per Scenario line, else the trace was not consumed
+    # exactly one TLC state per line, else the trace was not consumed
     if r.distinct != len(events):
         raise vlib.Infra("trace %s: %d lines but %d states validated (unconsumed or malformed lines)" % (tag, len(events), r.distinct))
     names = all_trace_predicates()
-    prop = set(selected(prefixes, names))
     drift = {"D_Units", "D_NoError"} | ({"D_Drift", "D_Model"} if "C14_" in prefixes else set())
-    first = {}   # scenario start line -> first verdict with a selected predicate failing
+    first = {}   # (scenario start line, property prefix) -> (verdict, first failing predicate of that prefix)
+    tainted = set()
     for v in sorted(verdicts, key=lambda x: (x["l0"], x["l"])):
-        fail_prop = [n for n in names if n in v["failing"] and n in prop]
+        hit = False
+        for pre in prefixes:
+            fp = [n for n in names if n in v["failing"] and n.startswith(pre)]
+            if fp:
+                hit = True
+                first.setdefault((v["l0"], pre), (v, fp[0]))
+        if hit:
+            tainted.add(v["l0"])
         fail_drift = [n for n in v["failing"] if n in drift]
-        if v["l0"] in first:
-            continue
-        if fail_prop:
-            first[v["l0"]] = (v, fail_prop)
-        elif fail_drift:
-            s, e = next(sp for sp in spans if sp[0] == v["l0"])
+        if fail_drift and v["l0"] not in tainted:
+            s, e = span_of[v["l0"]]
             raise vlib.Infra("specification drift %s at step %d of scenario %s (%s/%s) with no property failing:\n%s" % (
                 fail_drift, v["l"] - v["l0"], events[s - 1].get("id"), v["op"], v["call"],
                 json.dumps(events[s - 1:v["l"]], default=str)[:3000]))
     by_sig = {}
-    for l0, (v, fp) in first.items():
-        by_sig.setdefault(classify(v, fp), []).append((l0, v, fp))
-    ok_scen = len(spans) - len(first)
-    ctx.cov["traces_validated_against_impl"] += ok_scen
+    for (l0, pre), (v, name) in first.items():
+        by_sig.setdefault(classify(v, name), []).append((l0, v))
+    ctx.cov["traces_validated_against_impl"] += len(spans) - len(tainted)
     ctx.cov["trace_events_validated"] += len(events) - len(spans)
     ctx.stage("trace-triage-" + tag, scenarios=len(spans), steps=len(events) - len(spans), wall=round(r.wall, 1),
-              scenarios_with_failure=len(first), signatures={k: len(x) for k, x in sorted(by_sig.items())})
-    if not by_sig:
-        return
-    # confirmation: the earliest (shortest) scenario of every signature, cut after the failing step,
-    # judged by TLC with the predicates as INVARIANTs
-    conf = os.path.join(ctx.scratch, "na-confirm-%s.ndjson" % tag)
-    with open(conf, "w") as f:
-        for sig, lst in sorted(by_sig.items()):
-            l0, v, fp = min(lst, key=lambda x: (x[1]["l"] - x[0], x[0]))
-            sc = dict(events[l0 - 1])
-            sc["sig"] = sig.split(" ", 1)[1]
-            sc["id"] = "%s:%s" % (tag, sc.get("id"))
-            f.write(json.dumps(sc) + "\n")
-            for ev in events[l0:v["l"]]:
-                f.write(json.dumps(ev) + "\n")
-    invs = [n for n in names if n in prop] + [n for n in names if n in drift]
-    vlib.validate_traces(ctx, TRACE, conf, invs, tuple(prefixes), constants=DUMMY, overrides={"CurE": "TraceE"},
-                         timeout=3000, heap="6g", workers=1, max_reports=200)
+              scenarios_with_failure=len(tainted), signatures={k: len(x) for k, x in sorted(by_sig.items())})
+    # one report per signature: the shortest scenario, cut after the failing step
+    unknown = []
+    for sig, lst in sorted(by_sig.items()):
+        l0, v = min(lst, key=lambda x: (x[1]["l"] - x[0], x[0]))
+        sc = dict(events[l0 - 1])
+        sc["sig"] = sig.split(" ", 1)[1]
+        sc["id"] = "%s:%s" % (tag, sc.get("id"))
+        cut = [sc] + events[l0:v["l"]]
+        if is_known(ctx, sig):
+            # TLC (triage pass) evaluated the predicate FALSE on this recorded state
+            ctx.violation(sig, "TLC: %s violated at trace line %d of scenario %s" % (sig.split(" ")[0], v["l"] - l0, sc["id"]),
+                          {"module": TRACE, "invariant": sig.split(" ")[0], "at_event": v["l"] - l0, "trace": cut})
+        else:
+            unknown.append((sig, cut))
+    if unknown:
+        # confirmation by TLC with the predicates as ordinary INVARIANTs -> ctx.violation (vlib.validate_traces)
+        for pre in prefixes:
+            part = [(sig, cut) for sig, cut in unknown if sig.startswith(pre)][:12]
+            if not part:
+                continue
+            conf = os.path.join(ctx.scratch, "na-confirm-%s-%s.ndjson" % (tag, pre))
+            with open(conf, "w") as f:
+                for sig, cut in part:
+                    for ev in cut:
+                        f.write(json.dumps(ev) + "\n")
+            invs = [n for n in names if n.startswith(pre)]
+            before = len(ctx.violations)
+            vlib.validate_traces(ctx, TRACE, conf, invs, pre, constants=DUMMY, overrides={"CurE": "TraceE"},
+                                 timeout=3000, heap="6g", workers=1, max_reports=50)
+            if len(ctx.violations) - before < len(part):
+                raise vlib.Infra("triage reported %d failing scenarios for %s but only %d were confirmed" % (
+                    len(part), pre, len(ctx.violations) - before))
 
 
 def account(ctx, trace_path):
